@@ -57,3 +57,21 @@ S = {
  "string.unicode": "['\\ud83d\\ude00'.length,[...'\\ud83d\\ude00'].length,'\\ud83d\\ude00'.codePointAt(0),String.fromCodePoint(128512)==='\\ud83d\\ude00','ß'.toUpperCase(),'İ'.toLowerCase().length,'a'.localeCompare('B')<0,'\\u0041\\u030a'.normalize('NFC').length,'abc'<'abd','a'<'B','10'<'9',10<9].join()",
  "typed.coercions": "[1+'2','3'*'4',[]+[],[]+{},[1,2]+'',null+1,undefined+1,true+true,'5'-2,'5'+2,+[],+{},+'',+' 12 ',+'1,2',`${[1,[2,3]]}`,String(null),String([null]),String([undefined,1]),[0]==false,null==0,null>=0,undefined==null,NaN!=NaN,'b'>'a',[2]>1].join('|')",
 }
+
+# text outside ASCII but inside the BMP (UTF-16 units = characters, so the reference engine's positions
+# are comparable): every position taken or returned must count characters, never bytes
+TXT = "['héllo wörld','ñandú','日本語テキスト','aé','é','añbñcñ','','abc']"
+RT = "[-9,-3,-2,-1,0,1,2,3,4,6,20,undefined]"
+def sweept(body):
+    return ("(() => { const T = %s; const R = %s; const out = []; for (const s of T) for (const a of R) for (const b of R) { let r; try { r = %s; } "
+            "catch (e) { r = e.name; } out.push(JSON.stringify(r)); } return out.join(';'); })()" % (TXT, RT, body))
+S.update({
+ "text.slice": sweept("[s.slice(a, b), s.substring(a, b), s.substr(a, b)]"),
+ "text.at": sweept("[s.at(a), s.charAt(a), s.charCodeAt(a), s.codePointAt(a), s[a < 0 ? 0 : a]]"),
+ "text.indexOf": sweept("[s.indexOf(s.charAt(b < 0 ? 0 : b), a), s.lastIndexOf(s.charAt(b < 0 ? 0 : b), a), s.indexOf('', a), s.lastIndexOf('', a)]"),
+ "text.includes": sweept("[s.includes(s.charAt(b < 0 ? 0 : b) || 'q', a), s.startsWith(s.slice(b, b + 2), a), s.endsWith(s.slice(b, b + 2), a)]"),
+ "text.pad": sweept("[s.padStart(a, s), s.padEnd(a, 'é日'), s.repeat(a > 0 && a < 4 ? a : 0).length]"),
+ "text.regexp": sweept("(() => { const ch = s.charAt(b < 0 ? 0 : b) || 'x'; const r = new RegExp(ch.replace(/[.*+?^${}()|[\\]\\\\]/g, '\\\\$&'), 'g'); r.lastIndex = a < 0 ? 0 : (a || 0); "
+                       "const m = r.exec(s); return [m && m.index, r.lastIndex, s.search(r), (s.match(new RegExp(ch, '')) || {}).index, "
+                       "[...s.matchAll(r)].map(x => x.index).join(), s.replace(r, (x, off) => '<' + off + '>'), s.replace(ch, (x, off) => '[' + off + ']'), s.split(ch).length]; })()"),
+})
